@@ -16,7 +16,7 @@ import struct
 
 import jbd2model as J
 from framework import Check, Outcome, main
-from jworld import build_journal_world, check_replayed, crash_log, install_journal
+from jworld import build_journal_world, check_replayed, crash_log, install_journal, jplan_kw
 from simcore import (Plan, Rng, apply_event, derive_seed, crash_image, log_hash, run_sim, split_at_barrier, tool)
 
 MUT = "WTZPDA"
@@ -39,11 +39,11 @@ class C04(Check):
             "final image; distinct = distinct (front-end, format, crash point class, subset kind, journal-superblock-state) tuples.")
     assumptions = ["simdisk durability model: a write is durable once an fsync on that device completed after it; un-flushed writes "
                    "may be lost in any subset and torn at 512-byte sector granularity; no reordering across a completed flush",
-                   "internal journals; fast-commit not generated"]
+                   "internal journals and external journal devices (each device has its own barrier); fast-commit not generated"]
     reference_models = ["ref/jbd2model.py expected_blocks()", "crash-state reconstruction in sim/py/simcore.py (crash_image)"]
 
     def budget(self, tier):
-        return {"runs": 40, "wall_s": 85} if tier == "quick" else {"runs": 3000, "wall_s": 1500}
+        return {"runs": 28, "wall_s": 80} if tier == "quick" else {"runs": 3000, "wall_s": 1500}
 
     def generate(self, rng, tier):
         return {"world_seed": rng.u64(), "crash_seed": rng.u64(), "frontend": rng.choice(["e2fsck", "e2fsck", "debugfs"]),
@@ -68,40 +68,53 @@ class C04(Check):
         bs = jw["bs"]
         fe = spec["frontend"]
         fmtname = jw["fmt"].name()
+        ext = bool(jw["jdev"])
         pre = open(jw["img"], "rb").read()            # the state recovery starts from
+        jpre = open(jw["jdev"], "rb").read() if ext else None
         work = os.path.join(wd, "work.img")
+        jwork = os.path.join(wd, "work.jdev")
+        cimg = os.path.join(wd, "crash.img")
+        cjdev = os.path.join(wd, "crash.jdev")
         shutil.copyfile(jw["img"], work)
-        r0 = run_sim(recovery_argv(fe, work), Plan([work], None, clock=1500020000, rand_seed=3), wd, tag="rec0", keep_log=True)
+        if ext:
+            shutil.copyfile(jw["jdev"], jwork)
+
+        def devs_kw(a, b):
+            return ([a, (b, "blk dz")], {"extjournal": b}) if ext else ([a], {})
+        d0, k0 = devs_kw(work, jwork)
+        r0 = run_sim(recovery_argv(fe, work), Plan(d0, None, clock=1500020000, rand_seed=3, **k0), wd, tag="rec0", keep_log=True)
         o.sim_us += r0.sim_us
         final0 = open(work, "rb").read()
+        jfinal0 = open(jwork, "rb").read() if ext else None
         traces = [log_hash(r0.events)]
-        where = "%s, format %s, bs %d, %d txn(s) (%d expected replayed), features %s" % (
-            fe, fmtname, bs, len(jw["txns"]), nreplayed, ",".join(jw["cfg"]["features"]))
+        o.stats["journal." + ("external" if ext else "internal")] += 1
+        where = "%s, %s journal, format %s, bs %d, %d txn(s) (%d expected replayed), features %s" % (
+            fe, "external" if ext else "internal", fmtname, bs, len(jw["txns"]), nreplayed, ",".join(jw["cfg"]["features"]))
         o.sample = {"frontend": fe, "format": fmtname, "bs": bs, "expected_replayed": nreplayed, "log_crash": cdesc,
                     "recovery_events": [e.brief() for e in r0.events if e.kind in MUT + "F"][:60]}
         if r0.san or r0.signal or r0.timeout:
             o.observations.append("uninterrupted recovery ended abnormally (%s) -- judged under C03/C06" % r0.brief())
             o.trace = traces[0]
             return o
-        bad0 = check_replayed(final0, jw, exp, untouched)
+        bad0 = check_replayed(final0, jw, exp, untouched, jpost=jfinal0)
         if bad0:
             o.observations.append("uninterrupted recovery disagrees with the model (%s) -- judged under C03" % bad0[0][0])
             o.trace = traces[0]
             return o
-        evs = [e for e in r0.events if e.dev == 0 and (e.kind in MUT or e.kind == "F")]
+        evs = [e for e in r0.events if e.dev in ((0, 1) if ext else (0,)) and (e.kind in MUT or e.kind == "F")]
         npoints = len(evs)
         o.stats["recovery_events"] += npoints
-        jsb_off = jw["jblocks"][0] * bs
+        jsb_off = jw["jsb_blk"] * bs
         points = spec["points"] if spec["points"] is not None else list(range(1, npoints + 1))
 
-        def judge(state, label, n, kind, keep=None, tornmap=None):
-            """state: bytes of the disk after the crash"""
+        def judge(state, label, n, kind, keep=None, tornmap=None, jstate=None):
+            """state: bytes of the filesystem device after the crash; jstate: of the journal device (external journal)"""
             o.evals += 1
-            jsb = J.parse_jsb(state[jsb_off:jsb_off + 1024])
+            jsb = J.parse_jsb((jstate if ext else state)[jsb_off:jsb_off + 1024])
             needs = bool(struct.unpack_from("<I", state, 1024 + 96)[0] & 4)
             empty = jsb["start"] == 0
             o.distinct.add("%s|%s|%s|%s|jsb_empty=%d|needs=%d" % (fe, fmtname, evs[n - 1].kind if n <= len(evs) else "end", kind, empty, needs))
-            if state != pre and state != final0:
+            if (state != pre and state != final0) or (ext and jstate != jpre and jstate != jfinal0):
                 o.stats["probe.intermediate_state"] += 1
             # (2) durability ordering: journal marked empty, or recovery no longer requested  =>  every replayed block is durable
             if empty or not needs:
@@ -116,23 +129,27 @@ class C04(Check):
                         return
                 o.stats["probe.state_with_journal_released"] += 1
             # (1)/(3) run recovery again on the crash state
-            cimg = os.path.join(wd, "crash.img")
             with open(cimg, "wb") as f:
                 f.write(state)
+            if ext:
+                with open(cjdev, "wb") as f:
+                    f.write(jstate)
+            d1, k1 = devs_kw(cimg, cjdev)
             faults = []
             if spec["depth2"] and label == "kill" and n % 3 == 0:
-                faults = [("crash", 0, 1 + (n * 7) % max(1, npoints), 0, 0)]
-            r = run_sim(recovery_argv(fe, cimg), Plan([cimg], None, clock=1500030000, rand_seed=4, faults=faults), wd, tag="rec1")
+                faults = [("crash", -1 if ext else 0, 1 + (n * 7) % max(1, npoints), 0, 0)]
+            r = run_sim(recovery_argv(fe, cimg), Plan(d1, None, clock=1500030000, rand_seed=4, faults=faults, **k1), wd, tag="rec1")
             if faults and r.crashed:
                 o.stats["fault.nested_crash"] += 1
-                r = run_sim(recovery_argv(fe, cimg), Plan([cimg], None, clock=1500040000, rand_seed=5), wd, tag="rec2")
+                r = run_sim(recovery_argv(fe, cimg), Plan(d1, None, clock=1500040000, rand_seed=5, **k1), wd, tag="rec2")
             o.sim_us += r.sim_us
             post = open(cimg, "rb").read()
+            jpost = open(cjdev, "rb").read() if ext else None
             if r.san or r.signal or r.timeout:
                 o.violate("%s|%s|rerun_abnormal" % (fe, fmtname), "%s: re-run of recovery after a crash at event %d ended abnormally: %s" %
                           (where, n, r.brief()), point=n, kind=kind, keep=keep, skey="rerun_abnormal")
                 return
-            bad = check_replayed(post, jw, exp, untouched)
+            bad = check_replayed(post, jw, exp, untouched, jpost=jpost)
             if bad and os.environ.get("VERIF_KEEP"):
                 with open(os.path.join(wd, "violation_state.img"), "wb") as f:
                     f.write(state)
@@ -161,11 +178,14 @@ class C04(Check):
             crng = Rng(derive_seed(spec["crash_seed"], "point", n))     # per-point stream: shrinking keeps the state
             # kill model: everything issued so far is on the medium
             state = bytes(crash_image(pre, evs, 0, upto=n, model="kill"))
+            jstate = bytes(crash_image(jpre, evs, 1, upto=n, model="kill")) if ext else None
             o.stats["fault.crash_kill"] += 1
-            judge(state, "kill", n, "kill")
-            # power model
-            _dur, inflight = split_at_barrier(evs, 0, upto=n)
-            k = len(inflight)
+            judge(state, "kill", n, "kill", jstate=jstate)
+            # power model: per device, the writes issued since that device's last completed flush are in flight
+            _dur, infl0 = split_at_barrier(evs, 0, upto=n)
+            infl1 = split_at_barrier(evs, 1, upto=n)[1] if ext else []
+            union = sorted([(e.seq, 0, i) for i, e in enumerate(infl0)] + [(e.seq, 1, i) for i, e in enumerate(infl1)])
+            k = len(union)
             if k == 0:
                 continue
             subsets = [("none", [False] * k)]
@@ -173,25 +193,33 @@ class C04(Check):
                 last = [False] * k
                 last[-1] = True
                 subsets.append(("keep_last", last))
-                d1 = [True] * k
-                d1[crng.below(k)] = False
-                subsets.append(("drop_one", d1))
-                k1 = [False] * k
-                k1[crng.below(k)] = True
-                subsets.append(("keep_one", k1))
-                for _ in range(max(0, spec["subsets"] - 4)):
+                d1_ = [True] * k
+                d1_[crng.below(k)] = False
+                subsets.append(("drop_one", d1_))
+                k1_ = [False] * k
+                k1_[crng.below(k)] = True
+                subsets.append(("keep_one", k1_))
+                if ext and infl0 and infl1:
+                    subsets.insert(1, ("only_journal_dev", [d == 1 for _s, d, _i in union]))
+                    subsets.insert(2, ("only_fs_dev", [d == 0 for _s, d, _i in union]))
+                for _ in range(max(0, spec["subsets"] - len(subsets))):
                     subsets.append(("random", [crng.chance(0.5) for _ in range(k)]))
-            for name, keep in subsets[:spec["subsets"]]:
+            for name, keep in subsets[:spec["subsets"] + (2 if ext else 0)]:
+                keep0 = [True] * len(infl0)
+                keep1 = [True] * len(infl1)
+                for (_s, d, i), kp in zip(union, keep):
+                    (keep0 if d == 0 else keep1)[i] = kp
                 tornmap = {}
                 if crng.chance(0.15):
-                    cand = [i for i in range(k) if keep[i] and inflight[i].kind == "W" and len(inflight[i].payload) >= 1024]
+                    cand = [i for i in range(len(infl0)) if keep0[i] and infl0[i].kind == "W" and len(infl0[i].payload) >= 1024]
                     if cand:
                         i = crng.choice(cand)
-                        tornmap[i] = crng.range(1, len(inflight[i].payload) // 512 - 1)
+                        tornmap[i] = crng.range(1, len(infl0[i].payload) // 512 - 1)
                         o.stats["fault.torn"] += 1
-                state = bytes(crash_image(pre, evs, 0, upto=n, model="power", keep=keep, torn=tornmap))
+                state = bytes(crash_image(pre, evs, 0, upto=n, model="power", keep=keep0, torn=tornmap))
+                jstate = bytes(crash_image(jpre, evs, 1, upto=n, model="power", keep=keep1)) if ext else None
                 o.stats["fault.power_" + name] += 1
-                judge(state, "power", n, "power/" + name, keep=keep, tornmap=tornmap)
+                judge(state, "power", n, "power/" + name, keep=keep, tornmap=tornmap, jstate=jstate)
         o.trace = hashlib.sha256("".join(traces).encode()).hexdigest()
         return o
 
